@@ -1,5 +1,96 @@
-(* STUB: Impl model of slit.rs -- to be written *)
-From Coq Require Import NArith List.
-From ACPI Require Import Lib.Bytes Lib.Sx Lib.Machine Impl.Checksum Impl.Table Impl.Fields Impl.Run.
+(* Impl model of slit.rs (case vocabulary: see Spec/SlitS.v) *)
+From Coq Require Import NArith List Bool.
+From ACPI Require Import Lib.Bytes Lib.Sx Lib.Machine Impl.Checksum Impl.Table Impl.Fields Impl.Run Impl.Madt.
 Import ListNotations.
-Definition slit_case (md : mode) (c : sx) : list ev := [EvPanic].
+Open Scope N_scope.
+
+(* Vec<u8> entries.  A freshly resized vector is kept as (length, fill value) until its first write so that the
+   constructor can be evaluated for matrices of 2^32 bytes; [vlist] is the vector it stands for. *)
+Inductive vec8 := VFill (n v : N) | VList (l : list N).
+
+Definition vlist (x : vec8) : list N :=
+  match x with VFill n v => repeatN v (N.to_nat n) | VList l => l end.
+
+Definition vlen (x : vec8) : N :=
+  match x with VFill n _ => n | VList l => N.of_nat (length l) end.
+
+(* entries[idx] (panics out of range) *)
+Definition vget (x : vec8) (idx : N) : option N :=
+  if idx <? vlen x then
+    Some (match x with VFill _ v => v | VList l => nth (N.to_nat idx) l 0 end)
+  else None.
+
+(* entries[idx] = v *)
+Definition vset (x : vec8) (idx v : N) : option vec8 :=
+  if idx <? vlen x then Some (VList (upd (vlist x) (N.to_nat idx) v)) else None.
+
+(* cksum.append(&entries) on a vector of n copies of v: n wrapping additions of v *)
+Definition ck_append_fill (s v n : N) : N := (s + v * n) mod 256.
+
+Record slit := {
+  st_hdr : hdr;
+  st_len : N;          (* header.length *)
+  st_ck : N;           (* the running Checksum *)
+  st_hck : N;          (* header.checksum *)
+  st_ents : vec8;      (* entries *)
+  st_loc : N           (* localities: u32 *)
+}.
+
+(* SLIT::new: entry_count = localities.checked_mul(localities).expect(..); length = entry_count.checked_add(36 + 8).expect(..) *)
+Definition slit_new (c : sx) : option slit :=
+  match c with
+  | SL [o; t; r; SA loc] =>
+      do h <- sx_hdr [83; 76; 73; 84] 1 o t r;          (* "SLIT" *)
+      do cnt <- mul_c U32 loc loc;
+      do len <- add_c U32 cnt 44;
+      let ck0 := ck_append (ck_append 0 (hdr_bytes h len 0)) (q8 loc) in
+      (* Vec::with_capacity(n); if n > 0 { resize(n, 10); cksum.append(&entries) } *)
+      let ck := if 0 <? cnt then ck_append_fill ck0 10 cnt else ck0 in
+      Some {| st_hdr := h; st_len := len; st_ck := ck; st_hck := ck_value ck; st_ents := VFill cnt 10; st_loc := loc |}
+  | _ => None
+  end.
+
+Definition slit_with (s : slit) (ck : N) (e : vec8) : slit :=
+  {| st_hdr := st_hdr s; st_len := st_len s; st_ck := ck; st_hck := ck_value ck; st_ents := e; st_loc := st_loc s |}.
+
+(* domain_a + self.localities as usize * domain_b   (usize arithmetic: follows the build profile) *)
+Definition slit_idx (md : mode) (s : slit) (a b : N) : option N :=
+  do m <- mul_m md U64 (st_loc s) b;
+  add_m md U64 a m.
+
+Definition slit_set_distance (md : mode) (s : slit) (a b v : N) : option slit :=
+  (* assert!(domain_a < localities && domain_b < localities) *)
+  do _ <- assert ((a <? st_loc s) && (b <? st_loc s));
+  if a =? b then
+    (* a diagonal cell is a single byte: accounted once *)
+    do idx <- slit_idx md s a b;
+    do old <- vget (st_ents s) idx;
+    do e <- vset (st_ents s) idx v;
+    let ck := ck_append (ck_delete (st_ck s) [old]) [v] in
+    Some (slit_with s ck e)
+  else
+    do i1 <- slit_idx md s a b;
+    do o1 <- vget (st_ents s) i1;
+    do i2 <- slit_idx md s b a;
+    do o2 <- vget (st_ents s) i2;
+    do e1 <- vset (st_ents s) i1 v;
+    do e2 <- vset e1 i2 v;
+    (* update_header(&old_values, new_value): delete(old_values); append(&[new, new]) *)
+    let ck := ck_append (ck_delete (st_ck s) [o1; o2]) [v; v] in
+    Some (slit_with s ck e2).
+
+(* to_aml_bytes: header, qword(localities), one byte per entry *)
+Definition slit_image (s : slit) : list N :=
+  hdr_bytes (st_hdr s) (st_len s) (st_hck s) ++ q8 (st_loc s) ++ vlist (st_ents s).
+
+(* set_distance(a, b, value: u8) returns nothing *)
+Definition slit_step (md : mode) (s : slit) (o : sx) : option (slit * list ev) :=
+  match o with
+  | SL [SA 1; SA a; SA b; SA v] =>
+      do s' <- slit_set_distance md s a b (cast U8 v);
+      Some (s', [EvNum 0])
+  | _ => None
+  end.
+
+Definition slit_case (md : mode) (c : sx) : list ev :=
+  run_history (fun s => Some (slit_image s)) (slit_step md) slit_new c.
